@@ -32,6 +32,7 @@ type Program struct {
 	namedKeys []string
 	Rules     map[string]*DFA
 	fvTargets map[string][]*ssa.Function
+	implCache map[string][]*ssa.Function
 }
 
 var repoPkgs = []string{"./martian/core", "./martian/syntax", "./martian/util", "./cmd/mrjob", "./cmd/mrp"}
@@ -258,4 +259,43 @@ func sigKey(sig *types.Signature) string {
 	}
 	b.WriteString(")")
 	return b.String()
+}
+
+
+// implementers of an interface method among the named types of the program
+// (nil entries never occur; found=false when no type implements the interface at all)
+func (p *Program) implementers(c *ssa.CallCommon) ([]*ssa.Function, bool) {
+	iface, ok := c.Value.Type().Underlying().(*types.Interface)
+	if !ok {
+		return nil, false
+	}
+	key := types.TypeString(c.Value.Type(), nil) + "." + c.Method.Name()
+	if p.implCache == nil {
+		p.implCache = map[string][]*ssa.Function{}
+	}
+	if fs, ok := p.implCache[key]; ok {
+		return fs, len(fs) > 0
+	}
+	var out []*ssa.Function
+	for _, nk := range p.sortedNamed() {
+		n := p.Named[nk]
+		if _, isIface := n.Underlying().(*types.Interface); isIface {
+			continue
+		}
+		for _, t := range []types.Type{n, types.NewPointer(n)} {
+			if !types.Implements(t, iface) {
+				continue
+			}
+			sel := p.SSA.MethodSets.MethodSet(t).Lookup(c.Method.Pkg(), c.Method.Name())
+			if sel == nil {
+				continue
+			}
+			if fn := p.SSA.MethodValue(sel); fn != nil {
+				out = append(out, fn)
+			}
+			break
+		}
+	}
+	p.implCache[key] = out
+	return out, len(out) > 0
 }
